@@ -6,6 +6,7 @@
 package pbt
 
 import (
+	"container/heap"
 	"encoding/binary"
 	"encoding/json"
 	"flag"
@@ -13,12 +14,14 @@ import (
 	"hash/fnv"
 	"os"
 	"path/filepath"
+	"regexp"
 	"runtime"
 	"runtime/debug"
 	"sort"
 	"strconv"
 	"strings"
 	"sync"
+	"sync/atomic"
 	"testing"
 	"time"
 
@@ -412,6 +415,7 @@ func hashCase(c any) uint64 {
 // unknown failure.
 func evalCase[C any](check string, s *Spec[C], c C, count bool) error {
 	err := Safe(func() error { return s.Prop(c) })
+	noteGuard(err)
 	if count {
 		nt := s.NonTrivial == nil || s.NonTrivial(c)
 		Note(nt, hashCase(c)^HashStr(check))
@@ -698,6 +702,11 @@ func Recover(t *testing.T) {
 // guard that expires then says nothing about the code. A deadlock never
 // finishes, so stretching the wait only delays its report.
 func Scaled(d time.Duration) time.Duration {
+	if guardFired.Load() {
+		// a guard has already expired in this process: what follows is the
+		// shrinking of that failure, which repeats the hanging call many times
+		return d
+	}
 	f := 1.0
 	if b, err := os.ReadFile("/proc/loadavg"); err == nil {
 		var l1 float64
@@ -708,11 +717,101 @@ func Scaled(d time.Duration) time.Duration {
 			}
 		}
 	}
-	if f > 12 {
-		f = 12
+	if f > 8 {
+		f = 8
 	}
 	return time.Duration(float64(d) * f)
 }
 
-// After is time.After(Scaled(d)).
-func After(d time.Duration) <-chan time.Time { return time.After(Scaled(d)) }
+// IdleDur stretches a wait that is EXPECTED to run out in normal operation
+// ("nothing more arrives for d") - each one costs its full length, so it is
+// stretched only mildly (at most 2x).
+func IdleDur(d time.Duration) time.Duration {
+	if s := Scaled(d); s < 2*d {
+		return s
+	}
+	return 2 * d
+}
+
+// Idle is time.After(IdleDur(d)).
+func Idle(d time.Duration) <-chan time.Time { return time.After(IdleDur(d)) }
+
+var guardFired atomic.Bool
+
+var guardWords = regexp.MustCompile(`did not return|did not finish|no call completed|still blocked|was not closed|did not close|stalled|no redraw within|not delivered within`)
+
+// noteGuard recognises a failure that is an expired hang guard.
+func noteGuard(err error) {
+	if err != nil && guardWords.MatchString(err.Error()) {
+		guardFired.Store(true)
+	}
+}
+
+// GuardFired is called where a hang guard expired (see Scaled).
+func GuardFired() { guardFired.Store(true) }
+
+// After is a hang guard: like time.After(Scaled(d)), but measured on a clock
+// that only advances while this process is actually being scheduled. A
+// goroutine of the process ticks every 5 ms and credits at most 15 ms per
+// tick; when forty busy processes share the cores and a tick takes 200 ms to
+// come round, the guard's time passes that much more slowly, for the guarded
+// call is being starved just the same. When the code under test deadlocks,
+// the clock goroutine is scheduled normally and the guard fires on time.
+func After(d time.Duration) <-chan time.Time {
+	d = Scaled(d)
+	ch := make(chan time.Time, 1)
+	fair.mu.Lock()
+	if !fair.started {
+		fair.started = true
+		go fairLoop()
+	}
+	heap.Push(&fair.h, fairTimer{at: fair.now + d, ch: ch})
+	fair.mu.Unlock()
+	return ch
+}
+
+type fairTimer struct {
+	at time.Duration
+	ch chan time.Time
+}
+
+type fairHeap []fairTimer
+
+func (h fairHeap) Len() int            { return len(h) }
+func (h fairHeap) Less(i, j int) bool  { return h[i].at < h[j].at }
+func (h fairHeap) Swap(i, j int)       { h[i], h[j] = h[j], h[i] }
+func (h *fairHeap) Push(x interface{}) { *h = append(*h, x.(fairTimer)) }
+func (h *fairHeap) Pop() interface{} {
+	old := *h
+	n := len(old)
+	x := old[n-1]
+	*h = old[:n-1]
+	return x
+}
+
+var fair struct {
+	mu      sync.Mutex
+	now     time.Duration
+	h       fairHeap
+	started bool
+}
+
+func fairLoop() {
+	last := time.Now()
+	for {
+		time.Sleep(5 * time.Millisecond)
+		t := time.Now()
+		el := t.Sub(last)
+		last = t
+		if el > 15*time.Millisecond {
+			el = 15 * time.Millisecond
+		}
+		fair.mu.Lock()
+		fair.now += el
+		for fair.h.Len() > 0 && fair.h[0].at <= fair.now {
+			ft := heap.Pop(&fair.h).(fairTimer)
+			ft.ch <- t
+		}
+		fair.mu.Unlock()
+	}
+}
